@@ -191,6 +191,31 @@ def handleKey (x y : String) : Option Out := do
     | some v => showTok v
   some { model := s!"{b01 (decide (HK.ofVal a = HK.ofVal b))};{b01 (valDerivedEq a b)};{f}" }
 
+def isIntOrNull : Val → Bool
+  | .int _ => true
+  | .null => true
+  | _ => false
+
+def handleLf (chunked : Bool) (a : List String) : Option Out :=
+  match a with
+  | ncS :: kS :: szS :: tabs => do
+    if tabs.isEmpty || tabs.length > 4 then none else
+    let ncols ← ncS.toNat?
+    if ncols = 0 || ncols > 8 then none else
+    let keys ← parseKeys kS
+    if keys.any (· ≥ ncols) then none else
+    let sizes ← (szS.splitOn "/").mapM parseSz
+    let tables ← tabs.mapM (parseTbl ncols)
+    if sizes.length ≠ tables.length then none else
+    if tables.any (fun t => t.any fun r => r.any fun v => !isIntOrNull v) then none else
+    let inputs := (tables.zip sizes).map fun p => splitChunks p.1 p.2
+    if chunked then some { model := showChunks (lfJoin cap keys inputs) } else
+    let m := showBag (lfRows keys inputs)
+    let s := showBag (Spec.leapfrog keys inputs)
+    if s == m then some { model := m, spec := s }
+    else some { model := m, spec := s, sig := "leapfrog-join-first-key-level-only" }
+  | _ => none
+
 def handle (args : List String) : Option Out :=
   match args with
   | "hash" :: rest => handleHash false rest
@@ -198,6 +223,8 @@ def handle (args : List String) : Option Out :=
   | "nl" :: rest => handleNl false rest
   | "nl.c" :: rest => handleNl true rest
   | ["key", x, y] => handleKey x y
+  | "lf" :: rest => handleLf false rest
+  | "lf.c" :: rest => handleLf true rest
   | _ => none
 
 end DriverJoin
